@@ -20,7 +20,7 @@ def rows_lexicon(case):
     if m is None:
         # the pattern of the tree does not accept this form of the frozen lexicon at all
         return [{"rule": rn, "ts": qa.ts_json(ts), "a": [{"k": "R", "id": rid, "n1": n, "n2": -1, "n3": -1, "s1": u}],
-                 "a2": [{"k": "R", "id": rid, "n1": n, "n2": -1, "n3": -1, "s1": u}], "res": {"k": "F"}}]
+                 "a2": [{"k": "R", "id": rid, "n1": n, "n2": -1, "n3": -1, "s1": u}], "res": {"k": "F"}, "alias": 0}]
     tok = qa.T.RegexMatch(rid, m)
     row = common.call_rule(rn, ts, [tok])
     # the token's meaning comes from the LEXICON (n, u), not from reading the match
